@@ -116,10 +116,46 @@ def ones(shape, dtype=None):
     return full(shape, 1.0 if _kind(dtype) == 'real' else (True if _kind(dtype) == 'bool' else 1), dtype)
 
 
-def zeros_like(a, dtype=None):
-    if dtype is not None:           # np.zeros_like(a, dtype=float): the given dtype, not a's
+def _like(a, dtype, shape):
+    """(shape, kind) of np.*_like(a, dtype=, shape=): the PROTOTYPE's dtype and shape unless overridden"""
+    a = asarray(a)
+    if a.kind not in ('real', 'int', 'bool'):
+        raise OutOfSubset('*_like of a %s array' % a.kind)
+    sh = a.shape if shape is None else _shape(shape)
+    for s_ in (() if shape is None else sh):
+        cur().oblige('call-pre[non-negative dimension]', s_ >= 0)
+    return sh, (a.kind if dtype is None else _kind(dtype))
+
+
+def _const_of(kind, v):
+    return {'real': float(v), 'int': int(v), 'bool': bool(v)}[kind]
+
+
+def zeros_like(a, dtype=None, shape=None):
+    if shape is None and dtype is not None:           # np.zeros_like(a, dtype=float): the given dtype, not a's
         return zeros(a.shape, dtype)
-    return full(a.shape, 0.0 if a.kind == 'real' else 0)
+    sh, k = _like(a, dtype, shape)
+    return full(sh, _const_of(k, 0))
+
+
+def ones_like(a, dtype=None, shape=None):
+    sh, k = _like(a, dtype, shape)
+    return full(sh, _const_of(k, 1))
+
+
+def empty_like(a, dtype=None, shape=None):
+    """uninitialised array with the dtype of the prototype (an integer prototype gives an INTEGER buffer: later float stores truncate)"""
+    sh, k = _like(a, dtype, shape)
+    return SArr.fresh('empty_like', sh, k)
+
+
+def full_like(a, fill_value, dtype=None, shape=None):
+    sh, k = _like(a, dtype, shape)
+    if not sh:
+        raise OutOfSubset('full_like of a 0-d prototype')
+    r = SArr.fresh('full_like', sh, k)
+    r[(slice(None),) * len(sh)] = fill_value          # the fill value is cast to the prototype's dtype (float -> int truncates)
+    return r
 
 
 def asarray(x, dtype=None):
@@ -758,7 +794,7 @@ class _Module:
     def __init__(self, extra=None):
         import numpy as _np
         self.__dict__['_real_np'] = _np
-        t = dict(exp=exp, log=log, sqrt=sqrt, empty=empty, full=full, zeros=zeros, ones=ones, zeros_like=zeros_like,
+        t = dict(exp=exp, log=log, sqrt=sqrt, empty=empty, full=full, zeros=zeros, ones=ones, zeros_like=zeros_like, ones_like=ones_like, empty_like=empty_like, full_like=full_like,
                  asarray=asarray, asanyarray=asanyarray, array=array, atleast_1d=atleast_1d, atleast_2d=atleast_2d,
                  transpose=transpose, squeeze=squeeze, expand_dims=expand_dims, reshape=reshape, column_stack=column_stack,
                  concatenate=concatenate, vstack=vstack, hstack=hstack, sum=sum, mean=mean, all=all, any=any, argsort=argsort,
